@@ -33,7 +33,7 @@ ImplKeyAccept(f, k) == LET s == Scan(f, 1, {}) IN ~s.err /\ k \in s.keys
 Users == {"health", "schedule", "continuous", "other", "healthcase", "schedulecase"}   \* ...case: a service user's name in another letter case
 ServiceName(u) == u \in {"health", "schedule", "continuous"}
 Passwords == {"HEALTHPW", "job1", "job2", "job3", "jobX", "wrong", ""}
-Addrs == {"ip1", "ip2", "ip1x", "ipz", "ip6l", "ip6u"}   \* ip1x: an address that has ip1 as a textual prefix (127.0.0.1 vs 127.0.0.10);
+Addrs == {"ip1", "ip2", "ip1x", "ip2p", "ipz", "ip6l", "ip6u"}   \* ip2p: a proper textual prefix of ip2 (10.1.2.3 vs 10.1.2.30), on no list; ip1x: an address that has ip1 as a textual prefix (127.0.0.1 vs 127.0.0.10);
                                                          \* ip6l / ip6u: IPv6 sources, one on an allow list, one on none
 IPv6 == {"ip6l", "ip6u"}
 \* jobX: a scheduled and a continuous job may carry the same name; their allow lists stay separate
